@@ -292,7 +292,7 @@ func GenParamSet(t *rapid.T, id uint) *ParamSet {
 		Time:    uint32(rapid.IntRange(1, 2).Draw(t, "time")),
 		Memory:  uint32(rapid.SampledFrom([]int{8, 9, 16, 32, 64}).Draw(t, "memory")),
 		Threads: uint8(rapid.IntRange(1, 2).Draw(t, "threads")),
-		Length:  uint32(rapid.SampledFrom([]int{16, 17, 24, 32, 48}).Draw(t, "length"))}
+		Length:  uint32(rapid.SampledFrom([]int{16, 17, 24, 32, 48, 16, 32, 24, 48, 17, 3037, 4096, 5000}).Draw(t, "length"))}
 }
 
 // YAML renders the store configuration file.
